@@ -3,7 +3,7 @@ use color_eyre::eyre::Result;
 use lsp_types::{Position, SemanticToken, SemanticTokens, SemanticTokensParams};
 use spl_frontend::{
     ast::{AstInfo, GlobalDeclaration, ProcedureDeclaration, TypeDeclaration},
-    table::{Entry, GlobalTable, LookupTable},
+    table::{Entry, GlobalTable, LookupTable, SymbolTable},
     tokens::{Token, TokenType},
     AnalyzedSource, ToRange,
 };
@@ -163,7 +163,21 @@ fn collect_proc_dec(
                     SemanticTokenModifier::Declaration.into(),
                 ))
             } else if let TokenType::Ident(name) = &token.token_type {
-                lookup_table.lookup(name).map(|entry| match &entry {
+                // a name directly after `:` or `of` is in a type position:
+                // only global names are visible there
+                let is_type_position = pd.info.slice(tokens)[..i]
+                    .iter()
+                    .rev()
+                    .find(|token| !matches!(token.token_type, TokenType::Comment(_)))
+                    .map_or(false, |token| {
+                        matches!(token.token_type, TokenType::Colon | TokenType::Of)
+                    });
+                let entry = if is_type_position {
+                    global_table.lookup(name).map(Entry::from)
+                } else {
+                    lookup_table.lookup(name)
+                };
+                entry.map(|entry| match &entry {
                     Entry::Type(_) => create_semantic_token(
                         token,
                         *previous_token_pos,
